@@ -35,7 +35,9 @@ Actions and the code they transcribe (armi/settings)
                       order, each assigned through the schema onto the object *as it is* (an overlay, not a reset); names
                       that are no setting are collected in reader.invalidSettings and ignored; an active old name is
                       redirected to the current name (SettingRenamer.renameSetting -- the statement's clause; see S7
-                      below); a refused value raises out of the read, earlier entries stay applied.
+                      below); a refused value raises out of the read, earlier entries stay applied.  _readYaml looks into
+                      the `versions` entry before it applies anything, so a `versions` entry that is no mapping fails
+                      the whole read at once (StampRefused).
   Modified            Settings.modified(newSettings={s: r})                   duplicate, then assign on the duplicate
   Duplicate(kind)     Settings.duplicate (= copy.deepcopy) / pickle round trip (__getstate__/__setstate__)
   GetSet              Settings.getSetting(s) returns a copy of the Setting; assigning to it changes nothing
@@ -51,6 +53,21 @@ Interpretation choices
     structurally: no mutable part is shared (observation `shared`, always empty here; the adapter computes it from object
     identities of Setting objects and container values).
   * Ad-hoc settings (Settings.modified with a name that is no setting creates one) are not modelled.
+  * The order of the entries of a file matters only for what a *refused* read leaves applied.  A file the real writer
+    produced is sorted by real setting name; the harness keeps the entries of a file it edits or writes by hand grouped
+    in this module's entry order (a user may arrange a file as he likes), so the prediction "entries before the refused one
+    stay applied" is about an order the harness controls.
+
+Clauses of the statement and the properties that state them
+  written in any style and read back yields equal values       RoundTripFresh, RoundTripFull, ReadIsOverlay,
+                                                                 UneditedFilesAreAccepted, WrittenValuesAreCurrent
+  defaults stay default; short omits exactly those             ShortOmitsExactlyDefaults (FullWritesAll, MediumIsShortPlusUserSet
+                                                                 for the other two styles), NoDuplicateEntries
+  refused when assigned / read, previous value in place        RefusalKeepsEverything, ReadRefusalKeepsPrevious,
+                                                                 StoredValuesAreCanonical
+  renamed settings accepted under old names                    RenameLands, UnknownNamesAreReportedAndIgnored
+  modified copies do not affect the original                   OthersUntouched, CopiesStartEqual, observation `shared`
+  (nested / plugin settings, all values: by instantiation -- SettingSchema_cat decides the concrete values per real setting)
 ***************************************************************************************************************)
 EXTENDS Integers, Sequences, FiniteSets, TLC
 
